@@ -3,7 +3,8 @@
 1. is_raw_string_suffix (raw-string terminator look-ahead used by the comment/string segmentation).
 2. changed_comment_content (the lost-comment safety net): every comment slice of either text takes part in the payload comparison.
 3. CharClasses::next, one step from an arbitrary comment-tracking status: comment opening/closing/nesting and line-comment end.
-The rewriters that call the safety net, list machinery and close_block need spans/AST and are outside."""
+4. Net wiring: format_stmt, format_expr and rewrite_static hand every rewritten text to the safety net (under-constrained, callees uninterpreted).
+List machinery, close_block, comment rewriting and the string/char-literal part of the segmentation need spans/AST or whole texts and are outside."""
 from common import *
 from mirsym.intrinsics import str_expr, some, NONE
 from mirsym.values import StrVal
@@ -66,7 +67,7 @@ def build(ctx):
     ctx.bounds = {'raw-string sharps': '0..3 with 4 look-ahead characters (any scalar values, text may end anywhere)',
                   'comment slices per text (safety net)': '<= 2 slices of symbolic kind and uninterpreted text in each of the two texts',
                   'segmentation': 'one CharClasses::next step from each comment-tracking status, current character and 2 look-ahead characters symbolic, nesting depth symbolic'}
-    ctx.outside = ['whether each rewriter calls the safety net; list-item comment attachment; close_block; rewrite_comment word preservation (spans / AST / graphemes)',
+    ctx.outside = ['rewriters other than format_stmt / format_expr / rewrite_static calling the safety net; list-item comment attachment; close_block; rewrite_comment word preservation (spans / AST / graphemes)',
                    'agreement of the string / char-literal / lifetime part of the segmentation with the Rust lexer on whole texts',
                    'CommentReducer itself (payload is an uninterpreted function of the comment text here)', 'UngroupedCommentCodeSlices (slices are harness-supplied)']
     ctx.assumptions = ['itertools MultiPeek cursor semantics', 'tracing debug! output disabled', 'payload(comment text) is an uninterpreted function; concatenation of at most two payloads compared as sequences']
